@@ -72,7 +72,7 @@ def support_selftest(work):
     for sd in range(1, 9):
         ra = subprocess.run([a, str(sd)], capture_output=True, text=True).stdout.strip(); rb = subprocess.run([b, str(sd)], capture_output=True, text=True).stdout.strip()
         if ra != rb or not ra: return False, 'support TU disagrees with libstdc++.so for seed %d: %s vs %s' % (sd, ra, rb)
-    return True, '8 random operation scripts (200 rounds x 60 ops on std::map/std::list, 300 unordered_map inserts each): support TU == libstdc++.so'
+    return True, '8 random operation scripts (200 rounds x 60 ops on std::map/std::list, 300 unordered_map inserts, 40 std::hash<std::string> values each): support TU == libstdc++.so'
 
 
 NATIVE_VARIANTS = {
